@@ -9,7 +9,9 @@ definitions and proofs: `RedoModel/Lemmas/Catlog.lean`.
 
 Vocabulary (all defined in `Lemmas/Catlog.lean`):
 * `isRawLine l`   : `l` is emitted verbatim by `lines` — it does not parse as a record, or it is a record whose
-                    kind is none of `unchanged do waiting locked unlocked done` (`isRawLine_iff`);
+                    kind is none of `unchanged do waiting locked unlocked done`, or it is a `done` record whose text is
+                    not `<status> <name>` (`parseDoneText` fails; written by a script, passed through like other text)
+                    (`isRawLine_iff`, `malformed_done_is_raw`);
 * `rawLines ls`   : `(ls.filter isRawLine).map cleanLine`;
 * `unglue ls`     : the lines of a log as `catlog`'s line loop sees them — a record glued to unterminated text
                     (`checking y... @@REDO:do:…@@ y`) counts as two lines, the text and the record (`unglue1`; model file);
@@ -139,11 +141,67 @@ example : unglue1 "50% @@REDO: done".toList = ["50% @@REDO: done".toList] := by 
 
 /-! ## 1. The raw lines of a target, each once, in order -/
 
-/-- `isRawLine` is exactly "not one of the records `lines` interprets". -/
+/-- `isRawLine` is exactly "not one of the records `lines` interprets": not a record, a record of a kind other than
+`unchanged do waiting locked unlocked done`, or a `done` record whose text is not `<status> <name>`. -/
 theorem isRawLine_spec (l : List Char) :
     isRawLine l = true ↔ ∀ g, parse l = .ok g →
-      g.kind ≠ kUnchanged ∧ g.kind ≠ kDo ∧ g.kind ≠ kWaiting ∧ g.kind ≠ kLocked ∧ g.kind ≠ kUnlocked ∧ g.kind ≠ kDone :=
+      g.kind ≠ kUnchanged ∧ g.kind ≠ kDo ∧ g.kind ≠ kWaiting ∧ g.kind ≠ kLocked ∧ g.kind ≠ kUnlocked ∧
+      (g.kind = kDone → parseDoneText g.text = none) :=
   isRawLine_iff l
+
+/-- A `done` record whose text is not of the form `<status> <name>` (redo never writes one; a script did) is a raw line:
+the replay passes it through like other text. -/
+theorem malformed_done_is_raw (l : List Char) (g : Rec) (hp : parse l = .ok g) (hk : g.kind = kDone)
+    (hd : parseDoneText g.text = none) : isRawLine l = true := by
+  rw [isRawLine_iff]
+  intro g' hg'
+  rw [hp] at hg'
+  simp only [Except.ok.injEq] at hg'
+  subst hg'
+  rw [hk]
+  exact ⟨by decide, by decide, by decide, by decide, by decide, fun _ => hd⟩
+
+/-- … and a well-formed one is not (it is printed as a `done` record). -/
+theorem wellformed_done_is_not_raw (l : List Char) (g : Rec) (hp : parse l = .ok g) (hk : g.kind = kDone)
+    (v : List Char × List Char) (hd : parseDoneText g.text = some v) : isRawLine l = false := by
+  cases hr : isRawLine l with
+  | false => rfl
+  | true =>
+    have := ((isRawLine_iff l).1 hr g hp).2.2.2.2.2 hk
+    rw [hd] at this; cases this
+
+/-- The scenario of the repair: `a`'s script prints a line that looks like a `done` record but carries no
+`<status> <name>`.  -/
+def exBadDone : Forest :=
+  [("a".toList, some ["a 1".toList, "@@REDO:done:1:1.0000@@ oops".toList, "a 2".toList,
+      "@@REDO:do:5:1.0000@@ b".toList, "a 3".toList]),
+   ("b".toList, some ["b 1".toList])]
+
+example : isRawLine "@@REDO:done:1:1.0000@@ oops".toList = true ∧
+    isRawLine "@@REDO:done:1:1.0000@@ 0 a".toList = false := by decide +kernel
+
+/-- The malformed `done` line is shown as it is, in its place, and the replay goes on (before the repair it aborted):
+the following text, the sub-target `b`, the `resumed` marker and the rest of `a`'s log all follow. -/
+theorem malformed_done_passes_through :
+    (redoLog exBadDone false true (exBadDone.length + 2) ["a".toList] ⟨[], []⟩).map (fun s => s.out.reverse) =
+    .ok [⟨[], .record kDo "a".toList⟩,
+         ⟨"a".toList, .raw "a 1".toList⟩,
+         ⟨"a".toList, .raw "@@REDO:done:1:1.0000@@ oops".toList⟩,
+         ⟨"a".toList, .raw "a 2".toList⟩,
+         ⟨"a".toList, .record kDo "b".toList⟩,
+         ⟨"b".toList, .raw "b 1".toList⟩,
+         ⟨"a".toList, .record kResumed "a".toList⟩,
+         ⟨"a".toList, .raw "a 3".toList⟩] := by decide +kernel
+
+/-- No replay fails on a `done` record any more: the line loop reports `badDone` only if its `recurse` argument does,
+and `catlog` and the whole `redo-log` run never do — whatever the forest, the options, the fuel and the state are. -/
+theorem replay_never_fails_on_done (F : Forest) (optU optR : Bool) (fuel : Nat) :
+    (∀ (recurse : List Char → St → Except CErr (St × Nat)), (∀ x s, recurse x s ≠ .error .badDone) →
+      ∀ t ls st intr w, lines recurse optU optR t ls st intr w ≠ .error .badDone) ∧
+    (∀ t st, catlog F optU optR fuel t st ≠ .error .badDone) ∧
+    (∀ ts st, redoLog F optU optR fuel ts st ≠ .error .badDone) :=
+  ⟨fun _ hn t ls st intr w => lines_ne_badDone hn optU optR t ls st intr w,
+   catlog_ne_badDone F optU optR fuel, redoLog_ne_badDone F optU optR fuel⟩
 
 /-- Replaying a target that was not shown yet and has a log: among the entries the call appends, the raw
 ones tagged with that target are exactly the raw lines (cleaned) among the lines of the log after ungluing (a record
